@@ -129,6 +129,13 @@ func PrepareQuery(ctx context.Context, typ Type, selectionSet *SelectionSet) err
 		}
 
 		for _, fragment := range selectionSet.Fragments {
+			if fragment.On == typ.Name {
+				// A fragment on the union itself applies to every member.
+				if err := PrepareQuery(ctx, typ, fragment.SelectionSet); err != nil {
+					return err
+				}
+				continue
+			}
 			for typString, graphqlTyp := range typ.Types {
 				if fragment.On != typString {
 					continue
